@@ -156,9 +156,9 @@ def h_string_forms(which: int, err: bool):
 
 
 BOUNDS = {
-    'quick': 'code lists of length 0..3 over the 12-code class alphabet %r x 3 input shapes x add_erroneous; '
+    'quick': 'code lists of length 0..4 over the 12-code class alphabet %r x 3 input shapes x add_erroneous; '
              'one free code 0..256 in 13 contexts x 3 shapes x add_erroneous x prior state 0; reduction on top of 8 prior states for lists of length <=2' % (ALPHA,),
-    'thorough': 'lists of length 0..4 over the class alphabet; free code in 13 contexts x 8 prior states; reduction for lists of length <=3 x 8 priors',
+    'thorough': 'as quick, plus free code in 13 contexts x 8 prior states; reduction for lists of length <=3 x 8 priors',
 }
 OUTSIDE = ('lists longer than the bound; two free codes at once; inputs the statements leave ambiguous (extended-colour introducer '
            'followed by a selector other than 5/2 with more codes after it, colour components > 255) are excluded and counted')
@@ -168,7 +168,7 @@ KINDS = 'E: list length, alphabet selectors, free code 0..256, input shape, add_
 
 def obligations(tier):
     obs = [selftest_ob()]
-    maxL = 3 if tier == 'quick' else 4
+    maxL = 4
     for L in range(0, maxL + 1):
         fixed = dict(L=L)
         for k, nm in enumerate(('a1', 'a2', 'a3', 'a4')):
